@@ -75,10 +75,24 @@ class Sched:
             for r in self.threads.values():
                 r['abort'] = True
                 r['sem'].release()
+        if self.hung:
+            # let the aborted threads unwind (their `finally` / `__exit__` blocks run harness code) before the
+            # caller starts the next case: nothing of this run may leak into the next one
+            for r in list(self.threads.values()):
+                t = r['thread']
+                if t is not None and t is not threading.current_thread():
+                    t.join(1.0)
         return self.hung
 
     # ---------------------------------------------------------------- scheduling
     def _candidates(self):
+        out = self._candidates0()
+        # a thread that yielded (`sleep(0)`) runs again only when nobody else can: a strict-priority schedule
+        # would otherwise let a spin-wait starve the thread it is waiting for
+        rest = [n for n in out if not self.threads[n].get('yielding')]
+        return rest if rest else out
+
+    def _candidates0(self):
         out = []
         for n in self.order:
             r = self.threads[n]
@@ -118,6 +132,8 @@ class Sched:
 
     def _pick_and_release(self):
         while True:
+            if self.done.is_set():
+                return None          # the run is over (aborted): nobody is scheduled any more
             self.steps += 1
             if self.steps > self.max_steps:
                 self.hung = [('step budget', n, r['label']) for n, r in self.threads.items() if r['alive']]
@@ -160,18 +176,24 @@ class Sched:
                 raise Hang()
             self.current = me
 
-    def point(self, label, enabled=None, deadline=None):
+    def point(self, label, enabled=None, deadline=None, yield_=False):
         """Schedule point of the calling (controlled) thread. Returns True if it was woken because
         `enabled()` held, False if only because its deadline passed."""
         me = threading.current_thread().name
         r = self.threads.get(me)
-        if r is None:
-            return True              # an uncontrolled thread: no scheduling
+        if r is None or r['thread'] is not threading.current_thread():
+            return True              # an uncontrolled thread (or a left-over of an earlier, aborted run): no scheduling
+        if self.done.is_set():
+            raise Hang()             # this run was aborted: keep unwinding
         r['label'] = label
         r['deadline'] = deadline
         en = enabled if enabled is not None else (lambda: True)
         r['enabled'] = en
-        self._handoff(me)
+        r['yielding'] = yield_
+        try:
+            self._handoff(me)
+        finally:
+            r['yielding'] = False
         r['deadline'] = None
         try:
             return bool(en())
